@@ -51,6 +51,7 @@ type Contract struct {
 	Line         int
 	Pkg          string // package path the contract file belongs to
 	Used         bool
+	IsView       bool
 }
 
 type PureFn struct {
@@ -87,6 +88,7 @@ type Axiom struct {
 
 type Specs struct {
 	Contracts   map[string]*Contract
+	Views       map[string]*Contract // callerPkgPath|key -> trusted abstract view
 	Pures       map[string]*PureFn
 	GhostFields map[string]*GhostField // key Owner.Name
 	GhostVars   map[string]*GhostVar
@@ -98,6 +100,7 @@ type Specs struct {
 func NewSpecs() *Specs {
 	return &Specs{
 		Contracts:   map[string]*Contract{},
+		Views:       map[string]*Contract{},
 		Pures:       map[string]*PureFn{},
 		GhostFields: map[string]*GhostField{},
 		GhostVars:   map[string]*GhostVar{},
@@ -111,7 +114,7 @@ var keywords = map[string]bool{
 	"func": true, "requires": true, "ensures": true, "modifies": true, "trusted": true,
 	"inline": true, "maypanic": true, "panic_ensures": true, "loop": true, "pure": true,
 	"ghost": true, "axiom": true, "witness": true, "replay": true, "assert": true,
-	"nonilcheck": true, "props": true, "nilable": true, "crash_inv": true,
+	"nonilcheck": true, "props": true, "nilable": true, "crash_inv": true, "view": true,
 }
 
 type directive struct {
@@ -175,7 +178,7 @@ func (s *Specs) ParseFile(path, pkgPath string) error {
 			return c, nil
 		}
 		switch d.kw {
-		case "func":
+		case "func", "view":
 			key := d.rest
 			var names []string
 			// optional " params(a, b, c)" parameter renaming at the end
@@ -186,6 +189,13 @@ func (s *Specs) ParseFile(path, pkgPath string) error {
 					}
 				}
 				key = strings.TrimSpace(key[:i])
+			}
+			if d.kw == "view" {
+				// a trusted abstract view of another package's function, used only at the call
+				// sites of the declaring package
+				cur = &Contract{Key: key, ParamNames: names, Loops: map[int]*LoopSpec{}, File: d.file, Line: d.line, Pkg: pkgPath, Trusted: true, IsView: true}
+				s.Views[pkgPath+"|"+key] = cur
+				break
 			}
 			key = qualifyKey(key, pkgPath)
 			if _, dup := s.Contracts[key]; dup {
